@@ -3,6 +3,7 @@ package main
 import (
 	"fmt"
 	"go/token"
+	"go/types"
 	"strings"
 
 	"golang.org/x/tools/go/ssa"
@@ -193,7 +194,84 @@ func dedup(xs []string) []string {
 	return out
 }
 
+// searchHelperOf: contains may delegate the element search to a helper `h(cells, needle) (bool, error)`
+// whose boolean becomes the result: returns the helper and the call.
+func searchHelperOf(p *Program, fn *ssa.Function) (*ssa.Function, *ssa.Call) {
+	for _, call := range callsIn(fn) {
+		cv, ok := call.(*ssa.Call)
+		if !ok {
+			continue
+		}
+		h := cv.Call.StaticCallee()
+		if h == nil || !p.InLang(h) || len(h.Blocks) == 0 || h.Signature.Results().Len() != 2 || !isBoolType(h.Signature.Results().At(0).Type()) || !isErrorType(h.Signature.Results().At(1).Type()) {
+			continue
+		}
+		if len(h.Params) != 2 || cv.Call.IsInvoke() {
+			continue
+		}
+		hasSlice := false
+		for _, prm := range h.Params {
+			if _, ok := prm.Type().Underlying().(*types.Slice); ok {
+				hasSlice = true
+			}
+		}
+		if !hasSlice {
+			continue
+		}
+		return h, cv
+	}
+	return nil, nil
+}
+
+// containsThroughHelper: the contract of contains restated over the closure and its search helper.
+func containsThroughHelper(c *Ctx, fn, h *ssa.Function, hc *ssa.Call) {
+	p := c.P
+	H := p.Render(hc)
+	c.checkArm("R2", "array.contains", fn, armSpec{
+		Results: []string{"nil", "&lang.NewValue(" + H + "#0)"}, Effects: []string{},
+		Guards: map[string][]string{"&lang.NewValue(" + H + "#0)": {H + "#1 == nil", "lang.checkArgCount(v, 1) == nil"}},
+		Source: "contains(v) agrees with == applied to each element in order (the search is in " + shortName(h) + ")"})
+	// the helper is given the receiver's elements and the argument
+	var cells, needle *ssa.Parameter
+	argOK := true
+	for i, prm := range h.Params {
+		a := p.Render(hc.Call.Args[i])
+		if _, isSlice := prm.Type().Underlying().(*types.Slice); isSlice {
+			cells = prm
+			if a != "this.Array" {
+				argOK = false
+			}
+		} else {
+			needle = prm
+			if a != "v[0]" {
+				argOK = false
+			}
+		}
+	}
+	c.check(argOK && cells != nil && needle != nil, "R2", "array.contains search-arguments", p.InstrPos(hc), "the search runs over this.Array for v[0]", "the search helper is not given (this.Array, v[0])")
+	if cells == nil || needle == nil {
+		return
+	}
+	C, N := p.Render(cells), p.Render(needle)
+	eq := "(*lang.Value).Equals(" + N + ", &" + C + "[i@" + C + "].Value)"
+	vals := map[string]bool{}
+	okTrue, okExhausted := false, false
+	for _, rc := range p.successResults(h) {
+		vals[rc.Value] = true
+		g := setOf(rc.Guards)
+		if rc.Value == "true" {
+			okTrue = g[eq+"#0"] && g[eq+"#1 == nil"]
+		}
+		if rc.Value == "false" && g["i@"+C+" >= len("+C+")"] {
+			okExhausted = true
+		}
+	}
+	c.check(len(vals) == 2 && vals["true"] && vals["false"] && okTrue && okExhausted, "R2", "array.contains search", p.Pos(h.Pos()), "true at the first element equal to the argument, false after the last", "the search helper "+shortName(h)+" does not return true exactly at the first element with needle.Equals(element) and false once the elements are exhausted (results: "+keysOf(vals)+")")
+	c.check(len(p.effects(h)) == 0, "R2", "array.contains search effects", p.Pos(h.Pos()), "the search changes nothing", "the search helper has effects: "+strings.Join(p.effects(h), " ; "))
+}
+
 func c15R2(c *Ctx, ms []nativeMethod) {
+	p := c.P
 	c.note("R2 method-table (array): push: arity 1, this.Array = append(this.Array, fresh cell of v[0]), returns this; pop: arity 0, null when empty, else element len-1 and this.Array[:len-1]; popfirst: element 0 and this.Array[1:]; length: len(this.Array); contains: arity 1, true at the first element with v[0].Equals(element) in slice order, else false.")
 	methodTableComplete(c, "R2", ms, "array")
 	nn := []string{"this != nil"}
@@ -220,6 +298,12 @@ func c15R2(c *Ctx, ms []nativeMethod) {
 		if m == nil || m.Fn == nil {
 			c.violated("R2", "array."+r.name, "", "documented method is not defined in the prototype literal")
 			continue
+		}
+		if r.name == "contains" {
+			if h, hc := searchHelperOf(p, m.Fn); h != nil {
+				containsThroughHelper(c, m.Fn, h, hc)
+				continue
+			}
 		}
 		c.checkArm("R2", "array."+r.name, m.Fn, r.spec)
 		// the store of the re-sliced array happens on the same path as the element read
@@ -551,11 +635,18 @@ func c15NestedCalls(c *Ctx) {
 			continue
 		}
 		n := 0
-		for _, call := range callsIn(m.Fn) {
+		scope := m.Fn
+		if h, _ := searchHelperOf(p, m.Fn); h != nil {
+			scope = h
+		}
+		for _, call := range callsIn(scope) {
 			if !staticCalleeIs(call, "(*lang.Value).Equals") {
 				continue
 			}
-			for _, l := range rangeLoops(m.Fn, func(v ssa.Value) bool { return strings.HasSuffix(p.Render(v), ".Array") }) {
+			for _, l := range rangeLoops(scope, func(v ssa.Value) bool {
+				_, isParam := v.(*ssa.Parameter)
+				return strings.HasSuffix(p.Render(v), ".Array") || (scope != m.Fn && isParam)
+			}) {
 				if !l.Body.Dominates(call.Block()) {
 					continue
 				}
